@@ -17,6 +17,7 @@ import (
 	ngfAPIv1alpha1 "github.com/nginx/nginx-gateway-fabric/apis/v1alpha1"
 	ngfAPIv1alpha2 "github.com/nginx/nginx-gateway-fabric/apis/v1alpha2"
 
+	"github.com/nginx/nginx-gateway-fabric/internal/framework/helpers"
 	vu "github.com/nginx/nginx-gateway-fabric/internal/verifutil"
 )
 
@@ -167,6 +168,31 @@ func TestVerifC14(t *testing.T) {
 			}
 		}
 		objs := c.Objects()
+		// TLS passthrough listeners and TLSRoutes that claim the same hostnames on shared ports (a third of the cases)
+		if r.Chance(1, 3) {
+			objs = c03TLSLayer(r.Fork(), objs)
+			// two TLSRoutes that name the first TLS listener and claim one hostname; the older one's backend does not always exist
+			// (it wins the hostname all the same)
+			var gwNS string
+			for _, o := range objs {
+				if g, ok := o.(*gatewayv1.Gateway); ok && string(g.Spec.GatewayClassName) == vpClassName && gwNS == "" {
+					gwNS = g.Namespace
+				}
+			}
+			if gwNS != "" {
+				mk := func(name string, ts int64, backend string) client.Object {
+					return &v1alpha2.TLSRoute{ObjectMeta: metav1.ObjectMeta{Namespace: gwNS, Name: name, CreationTimestamp: vsTime(ts)},
+						Spec: v1alpha2.TLSRouteSpec{CommonRouteSpec: v1alpha2.CommonRouteSpec{ParentRefs: []gatewayv1.ParentReference{{Name: "gw", SectionName: helpers.GetPointer(gatewayv1.SectionName("tls0"))}}},
+							Hostnames: []v1alpha2.Hostname{"claim.example.com"},
+							Rules:     []v1alpha2.TLSRouteRule{{BackendRefs: []v1alpha2.BackendRef{vsBackendObj(vsBackend{Name: backend, Port: 443, Weight: 1})}}}}}
+				}
+				older := "svc-tls"
+				if r.Bool() {
+					older = "svc-not-there"
+				}
+				objs = append(objs, mk("tlsc-old", 0, older), mk("tlsc-new", 1, "svc-tls"))
+			}
+		}
 		withPolicies := r.Chance(1, 3)
 		if withPolicies {
 			for _, o := range objs {
@@ -206,7 +232,24 @@ func TestVerifC14(t *testing.T) {
 			runTerms = append(runTerms, vu.App("Run", c04Texts(files), matches, vu.StrList(conds)))
 			humans = append(humans, map[string]any{"order": order, "cuts": cuts, "conds": conds})
 		}
-		term := vu.App("Case", c.Coq(), vu.List(runTerms))
+		var tlsTerms []string
+		for _, o := range objs {
+			if tr, ok := o.(*v1alpha2.TLSRoute); ok {
+				var hs, ss []string
+				for _, h := range tr.Spec.Hostnames {
+					hs = append(hs, string(h))
+				}
+				for _, p := range tr.Spec.ParentRefs {
+					if p.SectionName != nil {
+						ss = append(ss, string(*p.SectionName))
+					} else {
+						ss = append(ss, "")
+					}
+				}
+				tlsTerms = append(tlsTerms, vu.Tuple(vu.Str(tr.Namespace), vu.Str(tr.Name), vu.Z(tr.CreationTimestamp.Unix()), vu.StrList(hs), vu.StrList(ss)))
+			}
+		}
+		term := vu.App("Case", c.Coq(), vu.List(runTerms), vu.List(tlsTerms))
 		out.Case(term, map[string]any{"cluster": c, "runs": humans}, len(c.Routes) >= 3, c.Coq())
 		out.Tally("routes", strconv.Itoa(len(c.Routes)))
 		out.Tally("gateways", strconv.Itoa(len(c.Gateways)))
